@@ -75,6 +75,14 @@ def run_cases(args):
             ds.write_config(updated_infos=[])
             re2 = Dataset(root)
             edited_same = jeq(json.loads(re2._dataset_info.model_dump_json()), json.loads(ds._dataset_info.model_dump_json()))
+            # … and edits made *in place* on the objects the handle holds (no property assignment), saved without any new shard list
+            ds.metadata.description = "in place: " + text()
+            ds.metadata.custom_metadata["inplace"] = [i, {"x": None, "flag": True}]
+            ds.dataset_structure.saved_data_description[0].custom_metadata["unit"] = "mV"
+            ds.write_config(updated_infos=[])
+            re3 = Dataset(root)
+            edited_same = bool(edited_same) and jeq(json.loads(re3._dataset_info.model_dump_json()), json.loads(ds._dataset_info.model_dump_json())) \
+                and re3.metadata.description == ds.metadata.description
             out["descr"].append({"i": i, "fmt": fmt, "comp": comp, "same": bool(same), "same_json": same_json, "edited_same": bool(edited_same),
                                  # (type-exact: `True == 1` in Python, a boolean that comes back as a number is a different JSON value)
                                  "shard_md_ok": all(json.dumps(m, sort_keys=True) == json.dumps(shard_md, sort_keys=True) for m in sm) and len(sm) > 0, "md": json.loads(md.model_dump_json())})
